@@ -158,6 +158,19 @@ Proof.
 Qed.
 Print Assumptions C10_restart.
 
+(* DELETE PIPE + CREATE PIPE under the same name at a quiescent point is the start of a new epoch with fresh
+   positions (model: recreate; the saved positions of the name are removed by persister.onDeleteStream): whatever
+   the earlier pipe of that name did (s1 is ANY quiescent state, its descriptor, worker and destination are
+   arbitrary), the re-created pipe copies exactly the matching events appended after its creation -- none of the
+   events written while no pipe of that name existed, none twice *)
+Theorem C10_recreate : forall af tags s1 sched,
+  quiescent s1 = true ->
+  (af = true \/ Forall write_all_keep sched) -> Forall enq_in_order sched ->
+  let s := run af tags (recreate s1) sched in
+  alive s = true -> quiescent s = true -> dst s = expected tags (length (log s1)) (log s).
+Proof. exact recreate_exact. Qed.
+Print Assumptions C10_recreate.
+
 (* ---- non-vacuity ---- *)
 Definition ev (n : Z) (k : bool) : event := {| e_ts := n; e_msg := [x6d]; e_flds := [([x66], [x31])]; e_keep := k |}.
 Definition demo_tags : list (bytes * bytes) := [([x61], [x62])].
@@ -184,4 +197,15 @@ Example C10_delete_demo :
   let s := run true demo_tags (init [] 0) (sched_write [ev 1 true] ++ [LDelete]) in
   alive s = false /\ copying s = false /\
   map d_ts (dst (run true demo_tags s (sched_write [ev 2 true]))) = [1]%Z.
+Proof. vm_compute. repeat split. Qed.
+
+(* an epoch that copied two events, DELETE PIPE, an event written while no pipe exists, CREATE PIPE under the same
+   name, one more event: the first epoch's state is quiescent with saved positions (Pos = 2), the new pipe starts
+   without a descriptor and copies the last event only *)
+Example C10_recreate_demo :
+  let s1 := run true demo_tags (init [] 0) (sched_write [ev 1 true; ev 2 true] ++ [LDelete] ++ sched_write [ev 3 true] ++ [LWork; LWork]) in
+  let s := run true demo_tags (recreate s1) (sched_write [ev 4 true]) in
+  quiescent s1 = true /\ alive s1 = false /\ option_map p_pos (desc s1) = Some 2 /\ map d_ts (dst s1) = [1; 2]%Z /\
+  desc (recreate s1) = None /\
+  alive s = true /\ quiescent s = true /\ map d_ts (dst s) = [4]%Z.
 Proof. vm_compute. repeat split. Qed.
